@@ -18,6 +18,11 @@ ops (every line starts with `reset`: the harness rebuilds its fixture from the l
                                        P  the user performs <op>
                                      names: comma separated, `-` = empty; u U the user, c p k other accounts, g G guest, z unknown id,
                                      e empty first field; `x*n` repeats (n ≤ 120).   answer: one `ok|err:<id>:same|changed` per P
+  reset banrec <op> <steps>            a history on the user's ban record for the written board (plain board, base user).  steps ≤ 16, ≥ 1 P:
+                                       S:<none|act|exp|junk|empty|dir>  put the record into that state
+                                       B  a moderator's session creates the record (empty) and keeps it open     F  it writes the ban
+                                          (now+3600) through the handle it holds and closes it
+                                       P  the user performs <op>      answer per P: ok|err:<id> : same|changed : none|file|dir (the record afterwards)
   reset thread ao=<self|other> at=<int32> <steps>
                                      a history on ONE article of board vsrc (CPLOG set) written under the id `verifu` (self) or another
                                      id, its entry's Modified starting at `at`.  steps, `/`-separated, ≤ 16, ≥ 1 T:
@@ -30,7 +35,8 @@ ops (every line starts with `reset`: the harness rebuilds its fixture from the l
 <facts> = 34 tokens `key=value` in this order:
   id ul ud ub uo uf   sn sa sl sg sp su sf sm sb   tn ta tl tg tp tu tf tm tb   a0 af an ae ao am at ax   cd pt
   hex: id ul sn sa sl tn ta tl an ae ao ("-" = empty);  decimal: ud ub uf sg sp su tg tp tu am at (int32: the entry's Modified) pt;  0/1: uo sf sm tf tm a0 af ax
-  sb/tb ∈ none|act|exp|junk (ban file: absent / expiry now+3600 / now-3600 / unreadable number);
+  sb/tb ∈ none|act|exp|junk|empty|dir (ban record: absent / expiry now+3600 / now-3600 / unparsable number /
+  exists but empty / is a directory);
   cd ∈ exp|act|max|neg|negact (cool-down time part: 0 / now+600 masked / 0x7FFFFFF0 / 0 resp. now+600 with bit 31 of the word set)
 
 answers:  ok|err:<identifier|lookup> same|changed [wit=yes|no]     flood: r1,r2,…,rk pt=<n>
@@ -77,11 +83,13 @@ def parseName (s : String) : Option (List Nat) :=
   | some bs => if bs.length ≤ 40 && bs.all (· ≠ 0) then some bs else none
   | none => none
 
-def parseBan (s : String) : Option (Option Int) :=
-  if s = "none" then some none
-  else if s = "act" then some (some ((fixedNow : Int) + 3600))
-  else if s = "exp" then some (some ((fixedNow : Int) - 3600))
-  else if s = "junk" then some (some 0)
+/-- (expiry of a readable record, record exists but is unreadable) -/
+def parseBan (s : String) : Option (Option Int × Bool) :=
+  if s = "none" then some (none, false)
+  else if s = "act" then some (some ((fixedNow : Int) + 3600), false)
+  else if s = "exp" then some (some ((fixedNow : Int) - 3600), false)
+  else if s = "junk" then some (some 0, false)
+  else if s = "empty" || s = "dir" then some (none, true)
   else none
 
 def kv (key : String) (tok : String) : Option String :=
@@ -102,7 +110,7 @@ def parseBoard (p : String) (ts : List String) : Option Board :=
       let bm ← (kv (p ++ "m") m) >>= parseBool
       let ban ← (kv (p ++ "b") b) >>= parseBan
       pure { name := name, attr := attr, level := level, limitLogins := lg.toUInt8, limitBadpost := lb.toUInt8,
-             nuser := nu, friend := fr, inBM := bm, ban := ban }
+             nuser := nu, friend := fr, inBM := bm, ban := ban.1, banBroken := ban.2 }
   | _ => none
 
 /-- the cool-down word a row describes: exp: time part 0; act: now+600 s; max: the largest time part;
@@ -279,11 +287,59 @@ def threadStep (st : Article × List String) (t : TStep) : Article × List Strin
   let a' := if o.err.isNone then touch a (fixedNow : Int) else a
   (a', out ++ [tag ++ ":" ++ (match o.err with | none => "ok" | some e => "err:" ++ e) ++ (if o.touched then ":changed" else ":same")])
 
+/-! histories on the ban record (`reset banrec`) -/
+
+/-- the record on disk as the harness sets it: none act exp junk empty dir; `pending`: created empty by a writer that
+still holds it open; `lost`: that writer's file has been unlinked under it. -/
+inductive BanDisk where
+  | none | act | exp | junk | empty | dir | pending | lost
+  deriving DecidableEq
+
+def BanDisk.toRec : BanDisk → BanRec
+  | .none | .lost => .absent
+  | .act => .expiry ((fixedNow : Int) + 3600)
+  | .exp => .expiry ((fixedNow : Int) - 3600)
+  | .junk => .expiry 0
+  | .empty | .dir | .pending => .unreadable
+
+inductive BStep where
+  | set (d : BanDisk) | begin | finish | perform
+
+def parseBStep (s : String) : Option BStep :=
+  if s = "P" then some .perform else if s = "B" then some .begin else if s = "F" then some .finish
+  else if s = "S:none" then some (.set .none) else if s = "S:act" then some (.set .act) else if s = "S:exp" then some (.set .exp)
+  else if s = "S:junk" then some (.set .junk) else if s = "S:empty" then some (.set .empty) else if s = "S:dir" then some (.set .dir)
+  else none
+
+def banStep (op : Op) (st : BanDisk × List String) : BStep → BanDisk × List String
+  | .set d => (d, st.2)
+  | .begin => (.pending, st.2)
+  | .finish => (match st.1 with | .pending => .act | .lost => .none | d => d, st.2)
+  | .perform =>
+      let d := st.1
+      let (e, after) := isBannedByRec Gen.WriteGuards.banCleanupOnReadError d.toRec fixedNow
+      let b : Board := match (if e > (fixedNow : Int) then BanDisk.act else BanDisk.none) with
+        | .act => { plainBoard nameSrc with ban := some e }
+        | _ => plainBoard nameSrc
+      let x : Row := { witnessCoolingDown with cd := 0 }
+      let x := match op with
+        | .crosspost => { x with tgt := { b with name := nameTgt } }
+        | _ => { x with src := b }
+      let o := run op x
+      let d' : BanDisk := match after with
+        | .absent => (match d with | .pending => .lost | .lost => .lost | _ => .none)
+        | _ => d
+      let kind := match d' with
+        | .none | .lost => "none"
+        | .dir => "dir"
+        | _ => "file"
+      (d', st.2 ++ [(match o.err with | none => "ok" | some e => "err:" ++ e) ++ (if o.touched then ":changed" else ":same") ++ ":" ++ kind])
+
 def step (_ : Unit) (ws : List String) : Unit × String :=
   let out := match ws with
     | ["facts"] =>
         s!"newPostDelegates={Gen.WriteGuards.newPostDelegates} postperm2={Gen.WriteGuards.checkPostPerm2IsPostpermMsg} " ++
-        s!"hbflReplaces={Gen.WriteGuards.hbflReloadReplacesRow} hbflMissingKeeps={Gen.WriteGuards.hbflMissingFileKeepsRow} maxFriend={Gen.WriteGuards.MAX_FRIEND} " ++
+        s!"banCleanupOnReadError={Gen.WriteGuards.banCleanupOnReadError} hbflReplaces={Gen.WriteGuards.hbflReloadReplacesRow} hbflMissingKeeps={Gen.WriteGuards.hbflMissingFileKeepsRow} maxFriend={Gen.WriteGuards.MAX_FRIEND} " ++
         s!"guardsFirst={guardsFirst Gen.WriteGuards.newpost},{guardsFirst Gen.WriteGuards.recommend},{guardsFirst Gen.WriteGuards.editpost},{guardsFirst Gen.WriteGuards.crosspost}"
     | ["reset", "flood", nu, k, bc] =>
         match (kv "nu" nu) >>= parseI32, (kv "k" k) >>= (parseNat · 2 40), (kv "bc" bc) >>= parseBool with
@@ -294,6 +350,12 @@ def step (_ : Unit) (ws : List String) : Unit × String :=
             let (rs, w) := flood u b k 0 []
             ",".intercalate rs ++ s!" pt={(posttimesOf w).toNat}"
         | _, _, _ => "bad-op"
+    | ["reset", "banrec", op, steps] =>
+        match parseOp op, (steps.splitOn "/").mapM parseBStep with
+        | some op, some sts =>
+            if sts.length > 16 || !sts.any (fun s => match s with | .perform => true | _ => false) then "bad-op" else
+            ",".intercalate (sts.foldl (banStep op) (BanDisk.none, [])).2
+        | _, _ => "bad-op"
     | ["reset", "thread", ao, atk, steps] =>
         match kv "ao" ao, (kv "at" atk) >>= parseI32, (steps.splitOn "/").mapM parseTStep with
         | some ao, some emod, some sts =>
